@@ -253,4 +253,24 @@ def probeSock : VSock :=
     ss := { minSs := 528, maxSs := 952, cooldownRemaining := 1, cooldownMax := 3 } }
 example : probeSock.probeOutstanding = true := by decide
 
+/-- **Without an outstanding probe nothing is popped**: `pop_expired_mtu_probe` leaves the queue alone unless the
+newest segment is an unacknowledged MTU probe. Together with `no_fin_behind_outstanding_probe` (the FIN is scheduled
+only when there is none) and the fact that nothing is segmented after the FIN, this is why the queue can no longer
+be re-split underneath a scheduled FIN (D27). -/
+theorem no_pop_without_outstanding_probe (s : Segments) (timedOut : Bool) (maxRetx : Nat)
+    (h : ∀ g, s.segs.getLast? = some g → (g.isMtuProbe && !g.isDelivered) = false) :
+    ∃ r, s.popExpiredMtuProbe timedOut maxRetx = some (s, r) ∧ ∀ a b, r ≠ .expired a b := by
+  unfold Segments.popExpiredMtuProbe
+  cases hl : s.segs.getLast? with
+  | none => exact ⟨_, rfl, by intro a b hh; cases hh⟩
+  | some last =>
+    have hp := h last hl
+    by_cases hd : last.isDelivered = true
+    · simp only [hd, if_true]; exact ⟨_, rfl, by intro a b hh; cases hh⟩
+    · have hnp : last.isMtuProbe = false := by
+        cases hm : last.isMtuProbe
+        · rfl
+        · simp [hm, hd] at hp
+      simp [hd, hnp]
+
 end UtpVerif.Props.C17
